@@ -190,3 +190,25 @@ def may_panic(name):
     if MAY_PANIC_RE.search(name):
         return "index/arith may panic"
     return None
+
+
+# iterator plumbing that hands on the ITEMS of the underlying iterator unchanged (possibly fewer of them, reordered or paired with an
+# index): tracing an item back through these reaches the producer of the items
+ITEM_PRESERVING = {
+    "std::iter::Iterator::skip", "std::iter::Iterator::take", "std::iter::Iterator::peekable", "std::iter::Iterator::by_ref",
+    "std::iter::Iterator::enumerate", "std::iter::Iterator::rev", "std::iter::Iterator::fuse", "std::iter::Iterator::step_by",
+    "std::iter::Iterator::skip_while", "std::iter::Iterator::take_while", "std::iter::Iterator::filter", "std::iter::Iterator::collect",
+    "std::iter::Iterator::cloned", "std::iter::Iterator::copied", "std::iter::Iterator::last", "std::iter::Iterator::nth",
+    "std::iter::Iterator::next", "std::iter::DoubleEndedIterator::next_back",
+    "std::iter::Peekable::<I>::peek", "std::iter::Peekable::<I>::next_if",
+    "<I as std::iter::IntoIterator>::into_iter", "std::iter::IntoIterator::into_iter",
+    "std::slice::iter::<impl std::iter::IntoIterator for &'a [T]>::into_iter",
+    "std::slice::<impl [T]>::iter", "std::slice::<impl [T]>::last", "std::slice::<impl [T]>::first",
+    "std::slice::<impl [T]>::split_last", "std::slice::<impl [T]>::split_first",
+    "<std::vec::Vec<T, A> as std::ops::Index<I>>::index", "std::vec::Vec::<T, A>::pop", "std::vec::Vec::<T, A>::last",
+}
+
+
+def item_preserving(name):
+    return name in ITEM_PRESERVING or name.endswith("Iterator>::next") or name.endswith("Iterator::next") or name.endswith("::into_iter") \
+        or name.endswith("Iterator>::next_back")
